@@ -17,8 +17,8 @@ def KeyInv (c : Hls.Cfg) (g : Gen) : Prop :=
   ClosedOk c g ∧ (∃ s, g.current = some s ∧ KeyStart c s)
   ∧ (∀ a, g.afCache = some a → isAudio c a.head = true)
 
-theorem keyInv_init (c : Hls.Cfg) : KeyInv c init := by
-  refine ⟨by simp [ClosedOk, init, segmentOpen], ⟨_, rfl, ?_⟩, by simp [init, segmentOpen]⟩
+theorem keyInv_init (c : Hls.Cfg) (b : Bool) : KeyInv c (initWith b) := by
+  refine ⟨by simp [ClosedOk, initWith, segmentOpen], ⟨_, rfl, ?_⟩, by simp [initWith, segmentOpen]⟩
   intro _ h; simp at h
 
 /-- flushing a frame into the open segment: closed segments untouched; the open one gets it -/
@@ -32,7 +32,8 @@ theorem flush_shape (g g' : Gen) (f : Frame) (h : flushFrame g f = some g') :
   | some s =>
     simp only [hc] at h
     injection h with h; subst h
-    refine ⟨rfl, rfl, rfl, s, _, rfl, rfl, rfl, ?_, ?_⟩ <;> (simp only [updateDuration]; split <;> rfl)
+    refine ⟨rfl, rfl, rfl, s, _, rfl, rfl, ?_, ?_, ?_⟩ <;>
+      (simp only [updateDuration]; split <;> (try split) <;> simp)
 
 theorem keyStart_snoc (c : Hls.Cfg) (s s' : Seg) (f : Frame) (hf : s'.frames = s.frames ++ [f])
     (hb : s'.byAudio = s.byAudio) (hh : s'.seqHdr = s.seqHdr) (h : KeyStart c s) : KeyStart c s' := by
